@@ -46,16 +46,31 @@ def level_flags(k):
 
 def resolve(argv):
     """run the implementation: ('ok', frozenset(on flags), outname) | ('argerror', msg) | ('crash', cls)"""
+    import signal
+    signal.signal(signal.SIGALRM, _hang)
+    signal.setitimer(signal.ITIMER_REAL, 2.0)
     try:
         fn, out = PD.load_commandline_flags(list(argv))
+    except _Hang:
+        return ("crash", "option processing does not terminate (2 s)")
     except RuntimeError as e:
         return ("argerror", str(e))
     except SystemExit:
         return ("exit",)
     except Exception as e:  # noqa: BLE001
         return ("crash", type(e).__name__ + ": " + str(e)[:80])
+    finally:
+        signal.setitimer(signal.ITIMER_REAL, 0)
     return ("ok", frozenset(f for f in PF if PD.do(f)), out, fn,
             tuple(sorted((o.name, PD.option(o)) for o in N.ProgramOption)))
+
+
+class _Hang(BaseException):
+    pass
+
+
+def _hang(signum, frame):
+    raise _Hang()
 
 
 def closure(flags):
@@ -129,6 +144,9 @@ def w_assign(job):
     out = dict(n=0, distinct=set(), bad=[], errors=0)
     rest = len(flags) - len(prefix)
     for tail in itertools.product((None, True, False), repeat=rest):
+        if len(out["bad"]) >= 20:
+            out["truncated"] = True     # a badly broken tree: enough evidence, do not spend hours
+            break
         assign = tuple(prefix) + tail
         explicit = {f: v for f, v in zip(flags, assign) if v is not None}
         w = words(explicit)
@@ -147,6 +165,8 @@ def w_assign(job):
             for p in check_config(level, explicit, res):
                 if len(out["bad"]) < 20:
                     out["bad"].append((argv, p))
+            if res[0] == "crash" and "terminate" in res[1]:
+                break       # the other levels would hang the same way
     out["distinct"] = list(out["distinct"])
     return out
 
@@ -159,6 +179,8 @@ def w_order(job):
     """job: list of word-multisets; all permutations of each must resolve identically"""
     out = dict(n=0, sets=0, bad=[])
     for ws in job:
+        if len(out["bad"]) >= 10:
+            break
         first = None
         out["sets"] += 1
         for perm in itertools.permutations(ws):
@@ -202,7 +224,7 @@ def run(tier, seed):
     # (a) assignment space, split by the first 3 flags -> 27 jobs
     jobs = [(p, len(flags)) for p in itertools.product((None, True, False), repeat=3)]
     nconf = 0
-    for _, r in pmap(w_assign, jobs, timeout=1200, chunksize=1):
+    for _, r in pmap(w_assign, jobs, timeout=1200, chunksize=1, stop=ck.enough):
         if "harness_error" in r or "harness_timeout" in r:
             from nv.framework import harness_fail
             harness_fail(str(r))
@@ -232,7 +254,7 @@ def run(tier, seed):
     chunks = [sets2[i::64] for i in range(64)]
     chunks += [mixed[i::8] for i in range(8)]
     nperm = 0
-    for _, r in pmap(w_order_wrapped, chunks, timeout=1200, chunksize=1):
+    for _, r in pmap(w_order_wrapped, chunks, timeout=1200, chunksize=1, stop=ck.enough):
         if "harness_error" in r or "harness_timeout" in r:
             from nv.framework import harness_fail
             harness_fail(str(r))
